@@ -13,7 +13,9 @@ import (
 
 // c07State: bucket "bkt" (versioning on request) with key "k" = "0".
 func c07State(versioned bool) *s3mem.Backend {
-	b := s3mem.New()
+	// the same seed everywhere: version ids of the sequential reference runs
+	// and of the concurrent run are then comparable
+	b := s3mem.New(s3mem.WithVersionSeed(7))
 	if err := b.CreateBucket("bkt"); err != nil {
 		panic(err)
 	}
@@ -29,7 +31,7 @@ func c07State(versioned bool) *s3mem.Backend {
 }
 
 // c07Op runs operation op on b and renders its observable result.
-func c07Op(b *s3mem.Backend, op int, body []byte) string {
+func c07Op(b gofakes3.Backend, op int, body []byte) string {
 	switch op {
 	case 0: // put k
 		r, err := b.PutObject("bkt", "k", map[string]string{}, bytes.NewReader(body), int64(len(body)))
@@ -37,6 +39,17 @@ func c07Op(b *s3mem.Backend, op int, body []byte) string {
 			return "put-error"
 		}
 		if r.VersionID != "" {
+			// the id handed to the client must name exactly this upload
+			vb := b.(gofakes3.VersionedBackend)
+			o, err := vb.GetObjectVersion("bkt", "k", r.VersionID, nil)
+			if err != nil || o == nil {
+				return "put-ok-versioned:id-unknown"
+			}
+			data, _ := io.ReadAll(o.Contents)
+			o.Contents.Close()
+			if string(data) != string(body) {
+				return "put-ok-versioned:id-names-another-upload"
+			}
 			return "put-ok-versioned"
 		}
 		return "put-ok"
@@ -84,8 +97,9 @@ func readObjFull(b gofakes3.Backend, bucket, key string) string {
 	if err != nil || o == nil {
 		return "error:" + errCode(err)
 	}
-	body := readObj(b, bucket, key)
-	_ = body
+	// the slow reader: other requests complete between the answer's headers
+	// and the download of its body
+	vsym.Yield()
 	data := make([]byte, 0, 4)
 	buf := make([]byte, 4)
 	for {
@@ -104,8 +118,56 @@ func readObjFull(b gofakes3.Backend, bucket, key string) string {
 	return "ok:" + string(data)
 }
 
-func c07Final(b *s3mem.Backend) string {
-	return "k=" + readObjFull(b, "bkt", "k") + "|j=" + readObjFull(b, "bkt", "j") + "|" + c07Op(b, 4, nil)
+func c07Final(b gofakes3.Backend) string {
+	s := "k=" + readObjFull(b, "bkt", "k") + "|j=" + readObjFull(b, "bkt", "j") + "|" + c07Op(b, 4, nil)
+	// the version history: every acknowledged upload is there under its own
+	// id with exactly its content
+	if vb, ok := b.(gofakes3.VersionedBackend); ok {
+		l, err := vb.ListBucketVersions("bkt", nil, nil)
+		if err != nil {
+			return s + "|versions-error"
+		}
+		// (ids are compared for distinctness only: their order reflects the
+		// order of allocation, which clients cannot rely on)
+		s += "|versions:"
+		var ids []gofakes3.VersionID
+		for _, v := range l.Versions {
+			id := v.GetVersionID()
+			for _, o := range ids {
+				if o == id {
+					s += "DUPLICATE-ID"
+				}
+			}
+			ids = append(ids, id)
+			switch e := v.(type) {
+			case *gofakes3.Version:
+				s += e.Key
+				if e.IsLatest {
+					s += "*"
+				}
+			case *gofakes3.DeleteMarker:
+				s += e.Key + "(marker)"
+				if e.IsLatest {
+					s += "*"
+				}
+			}
+			if id != "" {
+				key := "k"
+				if e, ok := v.(*gofakes3.Version); ok {
+					key = e.Key
+				}
+				if o, err := vb.GetObjectVersion("bkt", key, id, nil); err == nil && o != nil {
+					data, _ := io.ReadAll(o.Contents)
+					o.Contents.Close()
+					s += "=" + string(data)
+				} else {
+					s += "=" + errCode(err)
+				}
+			}
+			s += ";"
+		}
+	}
+	return s
 }
 
 // VH_C07: two operations on overlapping keys run by two threads with every
@@ -276,4 +338,48 @@ func VH_C07m() {
 	ba := vsym.And(vsym.And(vsym.StrEq(ra, a2), vsym.StrEq(rb, b2)), vsym.StrEq(f, f2))
 	vsym.Assert(vsym.Or(ab, ba), "C07m/linearizable")
 	vsym.Reach("C07m/done")
+}
+
+// c07StateKind: like c07State on the backend tier chosen by the harness
+// parameter (never versioned: only s3mem implements versioning).
+func c07StateKind(kind int) gofakes3.Backend {
+	b := newBackend(kind)
+	if kind != kindFsSingle {
+		if err := b.CreateBucket("bkt"); err != nil {
+			panic(err)
+		}
+	}
+	if _, err := b.PutObject("bkt", "k", map[string]string{}, bytes.NewReader([]byte("0")), 1); err != nil {
+		panic(err)
+	}
+	return b
+}
+
+// VH_C07k: VH_C07 on the persistent backends (the fs backends stream an
+// object's file after their lock is released, bolt reads inside a transaction).
+func VH_C07k() {
+	kind := backendKind()
+	opA := vsym.Choice("opA", 6)
+	opB := vsym.Choice("opB", 6)
+	bodyA, bodyB := vsym.Bytes("bodyA", 1), vsym.Bytes("bodyB", 1)
+
+	s1 := c07StateKind(kind)
+	a1 := c07Op(s1, opA, bodyA)
+	b1 := c07Op(s1, opB, bodyB)
+	f1 := c07Final(s1)
+	s2 := c07StateKind(kind)
+	b2 := c07Op(s2, opB, bodyB)
+	a2 := c07Op(s2, opA, bodyA)
+	f2 := c07Final(s2)
+
+	s := c07StateKind(kind)
+	var ra, rb string
+	vsym.Go(func() { ra = c07Op(s, opA, bodyA) })
+	vsym.Go(func() { rb = c07Op(s, opB, bodyB) })
+	vsym.Join()
+	f := c07Final(s)
+	ab := vsym.And(vsym.And(vsym.StrEq(ra, a1), vsym.StrEq(rb, b1)), vsym.StrEq(f, f1))
+	ba := vsym.And(vsym.And(vsym.StrEq(ra, a2), vsym.StrEq(rb, b2)), vsym.StrEq(f, f2))
+	vsym.Assert(vsym.Or(ab, ba), "C07k/linearizable")
+	vsym.Reach("C07k/done")
 }
